@@ -317,3 +317,49 @@ func vfH_C15_slow_origin() {
 		vfrt.Assert(len(conn.writeSet) == 0, "slow-origin/no-write-deadline-without-a-write-timeout")
 	}
 }
+
+//vf:assume C15-stalled-peer: a first connection whose accessors (RemoteAddr/LocalAddr) and reads block until the harness releases it - what a PROXY-protocol or TLS connection does while its peer stays silent - is being handled on one goroutine; a well-behaved second connection is handled on another; the harness waits for the second one to be served, with a timeout (1 s natively; in the model the timer fires only when every goroutine is blocked)
+
+type vfStalledConn struct {
+	*VfConn
+	release chan struct{}
+}
+
+func (c *vfStalledConn) RemoteAddr() net.Addr       { <-c.release; return c.VfConn.RemoteAddr() }
+func (c *vfStalledConn) LocalAddr() net.Addr        { <-c.release; return c.VfConn.LocalAddr() }
+func (c *vfStalledConn) Read(p []byte) (int, error) { <-c.release; return c.VfConn.Read(p) }
+
+//vf:harness property=C15 nopanic reach=stalled-peer-does-not-delay-others steps=8000000
+func vfH_C15_stalled_peer() {
+	p := &Proxy{}
+	p.TestingSkipRoundTrip = true
+	p.init()
+	stalled := &vfStalledConn{VfConn: NewVfConn(nil), release: make(chan struct{})}
+	done1 := make(chan struct{})
+	go func() {
+		p.handleLoop(stalled)
+		close(done1)
+	}()
+	good := NewVfConn([]byte("GET http://example.com/ HTTP/1.1\r\nHost: example.com\r\nConnection: close\r\n\r\n"))
+	served := make(chan struct{})
+	go func() {
+		p.handleLoop(good)
+		close(served)
+	}()
+	inTime := false
+	select {
+	case <-served:
+		inTime = true
+	case <-time.After(time.Second):
+	}
+	vfrt.Assert(inTime, "stalled-peer/well-behaved-client-served-without-waiting-for-the-stalled-one")
+	if inTime {
+		vfrt.Reach("stalled-peer-does-not-delay-others")
+		vfrt.Assert(good.Out.Len() > 0 && good.Closed >= 1, "stalled-peer/well-behaved-client-answered-and-closed")
+	}
+	close(stalled.release) // the silent peer finally goes away
+	<-done1
+	if !inTime {
+		<-served
+	}
+}
